@@ -3,6 +3,9 @@
  * away (req.c has no aio wait lists). */
 #include "include/env_alloc.h"
 #include "include/env_sync.h"
+#undef nni_aio_finish
+#undef nni_aio_finish_sync
+#undef nni_aio_finish_error
 #define nni_list_first vp_unused_aioq_first
 #define nni_list_empty vp_unused_aioq_empty
 #define VP_PROTO_STUBS 1
@@ -22,3 +25,8 @@ nng_err nni_copyin_ms(nni_duration *dp, const void *v, size_t sz, nni_type t)
 	return (NNG_OK);
 }
 nng_err nni_copyout_ms(nng_duration d, void *v, size_t *szp, nni_type t) { (void) d; (void) v; (void) szp; (void) t; return (NNG_OK); }
+/* completion log of depth two (see pre.h) */
+static void vpx_shift(void) { g_fin_prev = g_fin_last; g_fin_prev_rv = g_fin_last_rv; g_fin_prev_msg = g_fin_last_msg; }
+void vpx_aio_finish(nni_aio *aio, nng_err rv, size_t count) { vpx_shift(); nni_aio_finish(aio, rv, count); }
+void vpx_aio_finish_sync(nni_aio *aio, nng_err rv, size_t count) { vpx_shift(); nni_aio_finish_sync(aio, rv, count); }
+void vpx_aio_finish_error(nni_aio *aio, nng_err rv) { vpx_shift(); nni_aio_finish_error(aio, rv); }
